@@ -701,6 +701,9 @@ def call_ext(it, dotted, args, kwargs):
             v = args[0]
             if isinstance(v, NumTok):
                 return v.value
+            if isinstance(v, StrT) and len(v.parts) == 1 and isinstance(v.parts[0], Hole) and not v.parts[0].spec:
+                hv = v.parts[0].value
+                return hv.value if isinstance(hv, NumTok) else to_rat(hv)
             if isinstance(v, str) and v.strip().lower() in ('inf', '+inf', 'infinity'):
                 from .values import INF
                 return INF
@@ -963,6 +966,10 @@ def call_ext(it, dotted, args, kwargs):
     if short == 'warn':
         it.events.append(('warn',))
         return None
+    if short == 'namedtuple':
+        from .values import PyFunc
+        fields = list(args[1]) if not isinstance(args[1], str) else args[1].replace(',', ' ').split()
+        return PyFunc(lambda it2, a, k, fields=fields: Opaque('namedtuple', attrs=dict(list(zip(fields, a)) + list(k.items()))), 'namedtuple')
     if short == 'itemgetter':
         k = as_int(args[0])
         return _ItemGetter(k)
@@ -1078,7 +1085,11 @@ def _isinstance(it, v, spec):
         return False
     if isinstance(spec, ExtRef):
         short = spec.dotted.split('.')[-1]
+        if short == 'Element':
+            return isinstance(v, Opaque) and v.what.startswith('Element')
         if isinstance(v, Opaque):
+            if short in ('str', 'basestring', 'string', 'int', 'float', 'complex', 'list', 'tuple', 'dict', 'poly1d', 'ndarray'):
+                return False     # a stub object is never an instance of a builtin value type
             raise Undecidable('isinstance of %r' % v)
         if short in ('str', 'basestring', 'string'):
             return isinstance(v, (str, StrT))
